@@ -1113,6 +1113,67 @@ def f_small_alphabet(ids, rng, n, ifaces=("spi",), sizes=((2, 2), (3, 2), (2, 3)
     return out
 
 
+def f_nonfused(ids, rng, n=120, ifaces=("rec", "spi", "p8", "p16"), tag="nonfused", xport=True):
+    """iterators that are not fused: after their first `None` they would yield further items ("resume").  The
+    stream a call is given ends at the first `None` (what `for p in it { set_pixel(p) }` draws); the resumed items
+    are distinguishable (other colours, other cells) so that any effect of them shows in the picture."""
+    out = []
+    for _ in range(n):
+        W, H = rng.choice([(4, 3), (3, 3), (3, 2), (2, 3)])
+        iface = rng.choice(ifaces)
+        model = "tiny565_%dx%d" % (W, H)
+        if (W, H) in ((2, 3), (3, 2)) and iface in ("spi", "p8", "rec") and rng.random() < 0.3:
+            model = "tiny666_%dx%d" % (W, H)
+        w = rng.randrange(1, W + 1); h = rng.randrange(1, H + 1)
+        ox = rng.randrange(0, W - w + 1); oy = rng.randrange(0, H - h + 1)
+        rot, mir = rng.choice(ORIENTS)
+        lw, lh = lsize(w, h, rot)
+        c = cfg(model, w, h, ox, oy, rot, mir, iface=iface, buf=rng.choice([3, 4, 5, 7, 9, 64] if "666" in model else [2, 3, 4, 5, 7, 64]))
+        calls = [INIT, {"name": "clear", "c": 3}]
+        col = 40
+        for _ in range(rng.randrange(3, 8)):
+            k = rng.randrange(4)
+            if k == 0:
+                # a run, the gap, then pixels that continue the run / start elsewhere
+                x0 = rng.randrange(-1, lw); y0 = rng.randrange(0, lh)
+                m = rng.randrange(0, 4)
+                px = [[x0 + i, y0, col + i] for i in range(m)]
+                x1, y1 = rng.choice([(x0 + m, y0), (rng.randrange(lw), rng.randrange(lh)), (0, min(y0 + 1, lh - 1))])
+                more = [[x1 + i, y1, col + 20 + i] for i in range(rng.randrange(1, 4))]
+                calls.append({"name": "draw_iter", "px": px, "resume": more})
+            elif k == 1:
+                sx = rng.randrange(lw); sy = rng.randrange(lh)
+                ex = rng.randrange(sx, lw); ey = rng.randrange(sy, lh)
+                area = (ex - sx + 1) * (ey - sy + 1)
+                ln = rng.randrange(0, area + 1)
+                calls.append({"name": "set_pixels", "win": [sx, sy, ex, ey], "colors": [col + i for i in range(ln)],
+                              "resume": [col + 20 + i for i in range(rng.randrange(1, 5))]})
+            elif k == 2:
+                r = [rng.randrange(-1, lw), rng.randrange(-1, lh), rng.randrange(1, lw + 2), rng.randrange(1, lh + 2)]
+                area = r[2] * r[3]
+                calls.append({"name": "fill_contiguous", "rect": r,
+                              "colors": {"start": col, "len": rng.randrange(0, area + 1), "resume": rng.randrange(1, 6)}})
+            else:
+                calls.append({"name": "set_pixel", "x": rng.randrange(lw), "y": rng.randrange(lh), "c": col})
+            col += 64
+        out.append(scn(ids, c, calls, tag=tag))
+    if xport:
+        for iface in [i for i in ifaces if i != "rec"]:
+            wbits = 16 if iface == "p16" else 8
+            for nn in (1, 2, 3):
+                for buf in ([nn, nn + 1, 2 * nn, 3 * nn + 1, 64] if iface == "spi" else [0]):
+                    cap = max(buf // nn, 1)
+                    calls = [RAMWR]
+                    for cnt in sorted({0, 1, cap - 1, cap, cap + 1, 2 * cap, 2 * cap + 1} - {-1}):
+                        base = rng.randrange(200)
+                        calls.append({"name": "xport.send_pixels", "n": nn,
+                                      "px": [pix_words(rng, nn, wbits, "seq", base=base + i * nn) for i in range(cnt)],
+                                      "resume": [pix_words(rng, nn, wbits, "seq", base=base + 100 + i * nn) for i in range(rng.randrange(1, cap + 2))]})
+                        calls.append(RAMWR)
+                    out.append(scn(ids, xcfg(iface, buf), calls, tag=tag + "-xport", budget=20000))
+    return out
+
+
 def f_xport_faults(ids, rng, ifaces=("p8", "p16"), n=200):
     """interface-level calls on a real transport with one failing low-level operation somewhere inside:
     what reached the bus before it must be a prefix of what was to be sent, and nothing may follow"""
